@@ -71,6 +71,9 @@ def main():
                 print("   " + l)
     finally:
         shutil.rmtree(d, ignore_errors=True)
+        sys.path.insert(0, os.path.dirname(os.path.dirname(os.path.abspath(__file__))))
+        from snowlint import build
+        build.drop_scratch_facts(d)
 
 
 if __name__ == "__main__":
